@@ -34,7 +34,7 @@ SCTP_CLONES = {"quick": ['inbound_req_basic', 'conn_closed_by_node', 'connect_re
 KINDS = ["inbound_req_basic", "inbound_req_threading", "inbound_req_threading_none", "outbound_req", "dwr_from_peer",
          "dwr_from_node", "rejected_requests", "conn_closed_by_peer", "conn_closed_by_node", "connect_refused",
          "connect_failed_async", "cea_rejected", "cer_rejected_no_common_app", "unknown_peer", "ce_timeout",
-         "refused_while_stopping", "late_and_unknown_answers", "conn_with_request_closed"]
+         "refused_while_stopping", "late_and_unknown_answers", "conn_with_request_closed", "outbound_req_timeout"]
 PEER = "peer1.verif.example"
 
 
@@ -109,6 +109,7 @@ class Kind:
         self.h = self.w.h
         self.hbh = 1000
         self.restless = 0
+        self.late_answered = 0
         strict = self.h.settle
 
         def tolerant(max_ticks=40):
@@ -172,6 +173,25 @@ class Kind:
                     sp.send(M.cca(PEER, REALM, app=4, hbh=f.h.hbh, e2e=f.h.e2e, session=f"o;{i}"))
                 h.settle()
                 t.join(10)
+                sp.frames.clear()
+        elif kind == "outbound_req_timeout":
+            # the sender gives up before the peer answers; the answer arrives afterwards (every request is answered)
+            from vf.simnet.world import app_request
+            sp = self.connect()
+            app = w.apps["a4"]
+            for i in range(n):
+                res = {}
+                t = threading.Thread(target=app_request, args=(app, REALM, 0.004, res, f"t;{i}"))
+                t.start()
+                t.join(10)
+                h.settle()
+                sp.drain()
+                req = [f for f in sp.frames if f.is_request and f.h.code == 272]
+                if req and res.get("exc") == "TimeoutError":
+                    f = req[-1]
+                    sp.send(M.cca(PEER, REALM, app=4, hbh=f.h.hbh, e2e=f.h.e2e, session=f"t;{i}"))
+                    self.late_answered += 1
+                h.settle()
                 sp.frames.clear()
         elif kind == "late_and_unknown_answers":
             sp = self.connect()
@@ -338,6 +358,11 @@ def run_shard(spec):
                 res[n] = k.run()
             finally:
                 k.close()
+            if kind == "outbound_req_timeout":
+                cov["timed_out_requests_answered_late"] = cov.get("timed_out_requests_answered_late", 0) + k.late_answered
+                if k.late_answered < n // 2:
+                    return {"evaluations": 0, "hashes": [], "witnesses": [], "samples": [], "coverage": cov,
+                            "inconclusive": f"{kind}: only {k.late_answered} of {n} requests timed out before their answer"}
     except Inconclusive as e:
         return {"evaluations": 0, "hashes": [], "witnesses": [], "samples": [], "coverage": cov,
                 "inconclusive": f"{kind}: {e}"}
